@@ -1829,6 +1829,9 @@ class AclMachine(Machine):
             self._plan = [(t, "shadow_triple", {})]
         if kind == "scribble_names":
             self._plan = [(t, "set_platform", {})]
+        if kind == "set_item_seq" and self.prop in ("C02", "C19") and s.random() < 0.6:
+            # numbers that do not ascend inside a block, then the conversion that splits entries
+            self._plan = [(t, "set_platform", {})]
         if kind == "ungroup_ports" and self.prop in ("C19", "C17") and s.random() < 0.4:
             # split, put the very text of a split entry back in, change what the text does not
             # carry (group members), split again
